@@ -23,6 +23,8 @@ pub enum EK {
     RatioVec,
     /// echoed parameter (k_exp, arearef)
     Param,
+    /// annual building need (DEMANDA), a sum of its own inputs only
+    Need,
 }
 
 #[derive(Clone, Debug)]
@@ -161,13 +163,13 @@ fn flat_map_srv(f: &mut Flat, p: &str, m: &HashMap<Service, f32>, m2: bool) {
 fn flat_balance(f: &mut Flat, prefix: &str, b: &Balance, m2: bool) {
     let p = prefix;
     if let Some(v) = b.needs.ACS {
-        put(f, format!("{p}.needs.ACS"), vec![v as f64], EK::Energy, None, m2, false);
+        put(f, format!("{p}.needs.ACS"), vec![v as f64], EK::Need, None, m2, false);
     }
     if let Some(v) = b.needs.CAL {
-        put(f, format!("{p}.needs.CAL"), vec![v as f64], EK::Energy, None, m2, false);
+        put(f, format!("{p}.needs.CAL"), vec![v as f64], EK::Need, None, m2, false);
     }
     if let Some(v) = b.needs.REF {
-        put(f, format!("{p}.needs.REF"), vec![v as f64], EK::Energy, None, m2, false);
+        put(f, format!("{p}.needs.REF"), vec![v as f64], EK::Need, None, m2, false);
     }
     put(f, format!("{p}.used.nepus"), vec![b.used.nepus as f64], EK::Energy, None, m2, false);
     put(f, format!("{p}.used.epus"), vec![b.used.epus as f64], EK::Energy, None, m2, false);
